@@ -45,18 +45,18 @@ pub fn phases(prop: &str, tier: Tier) -> Vec<Phase> {
         "C18" => vec![
             Phase { name: "rt-grid", units: 13, seeded: false },
             Phase { name: "c18-user-shape", units: 1, seeded: false },
-            Phase { name: "rt-large", units: 4, seeded: false },
+            Phase { name: "rt-large", units: if q { 5 } else { 6 }, seeded: false },
             Phase { name: "rt-seeded", units: if q { 1500 } else { 150_000 }, seeded: true },
         ],
         "C02" => vec![
             Phase { name: "rt-grid", units: 13, seeded: false },
-            Phase { name: "rt-large", units: 4, seeded: false },
+            Phase { name: "rt-large", units: if q { 5 } else { 6 }, seeded: false },
             Phase { name: "rt-seeded", units: if q { 1500 } else { 150_000 }, seeded: true },
             Phase { name: "wfault-c02", units: if q { 1500 } else { 150_000 }, seeded: true },
         ],
         "C01" | "C04" => vec![
             Phase { name: "rt-grid", units: 13, seeded: false },
-            Phase { name: "rt-large", units: 4, seeded: false },
+            Phase { name: "rt-large", units: if q { 5 } else { 6 }, seeded: false },
             Phase { name: "rt-seeded", units: if q { 1500 } else { 150_000 }, seeded: true },
         ],
         "C05" => vec![
@@ -214,19 +214,19 @@ pub fn meta(prop: &str) -> PropMeta {
     match prop {
         "C01" | "C02" | "C04" | "C18" => PropMeta {
             level: "exploration",
-            rule: "rt-grid: 13 types x parts 1..=6 x points/part 1..=8 x {Direct, BufWriter(7), BufWriter(8192)} x {with,without shx}, enumerated; rt-large: files of 1023..10000 records, shapes of 1023..2049 parts and of 1023..8193 and 65535..70000 points per part, around the readers' internal limits and 2^16; rt-seeded: one seeded scenario per run (type, 0..40 shapes via public constructors, swarm-drawn float classes incl. +-0, subnormals, +-inf, sentinels, no-data neighbourhood, NaN in Z/M; finalize placement; ending by drop / finalize+drop / write_shapes; writer and reader stacks; chunk/EINTR schedules on all four devices; by-path routes over pre-existing longer files in 1/16 of the runs). every file is read back through iter_shapes / iter_shapes_as / read / read_as / random access / the Iterator adaptors nth(1) + step_by(2), with and without index; wfault-c02 (C02 only): seeded workloads with finalize calls anywhere (plain or retried) x every device operation of every finalize failed once on either file - the file a later successful finalize or the drop leaves behind is judged by the strict decoder. A run is non-trivial if it wrote at least one shape; distinct = distinct (type, per-shape part-length signature, writer stack, call pattern, reader stack) tuples by hash. In 1/8 of the seeded runs the (empty) destinations are handed to the writer at a non-zero position. rt-large also writes single parts / multipoints of 65535..70000 points (Z and M types).",
+            rule: "rt-grid: 13 types x parts 1..=6 x points/part 1..=8 x {Direct, BufWriter(7), BufWriter(8192)} x {with,without shx}, enumerated; rt-large: files of 1023..10000 records, shapes of 1023..2049 parts and of 1023..8193, 65535..70000, 2^17+5, 2^18+5 (thorough: 2^20+5) points per part, around the readers' internal limits and powers of two a block-wise writer may use; rt-seeded: one seeded scenario per run (type, 0..40 shapes via public constructors, swarm-drawn float classes incl. +-0, subnormals, +-inf, sentinels, no-data neighbourhood, NaN in Z/M; finalize placement; ending by drop / finalize+drop / write_shapes; writer and reader stacks; chunk/EINTR schedules on all four devices; by-path routes over pre-existing longer files in 1/16 of the runs). every file is read back through iter_shapes / iter_shapes_as / read / read_as / random access / the Iterator adaptors nth(1) + step_by(2), with and without index; wfault-c02 (C02 only): seeded workloads with finalize calls anywhere (plain or retried) x every device operation of every finalize failed once on either file - the file a later successful finalize or the drop leaves behind is judged by the strict decoder. A run is non-trivial if it wrote at least one shape; distinct = distinct (type, per-shape part-length signature, writer stack, call pattern, reader stack) tuples by hash. In 1/8 of the seeded runs the (empty) destinations are handed to the writer at a non-zero position. rt-large also writes single parts / multipoints of 65535..70000 points (Z and M types). A quarter of the multi-vertex shapes reach the writer as a Clone::clone() of the constructed value or as another shape overwritten with Clone::clone_from(). After the last explicit finalize of a history the bytes the destinations hold at that moment (below any buffer, the writer still alive) are read back through all routes as well.",
             explanation: "Fault-free configuration of the simulator with must-be-masked transfer schedules: the real writer runs against simulated devices, the bytes are judged by an independent decoder and read back through every reading route of the real reader. Simulated time = device operations (logical_steps); the code under test has no clock.",
             exhaustive: false,
         },
         "C05" => PropMeta {
             level: "exploration",
-            rule: "rt-grid: 13 types x parts 1..=6 x points/part 1..=8 x {Direct, BufWriter(7), BufWriter(8192)} x {with,without shx}, enumerated; rt-large: files of 1023..10000 records, shapes of 1023..2049 parts and of 1023..8193 and 65535..70000 points per part, around the readers' internal limits and 2^16; rt-seeded: one seeded scenario per run (type, 0..40 shapes via public constructors, swarm-drawn float classes incl. +-0, subnormals, +-inf, sentinels, no-data neighbourhood, NaN in Z/M; finalize placement; ending by drop / finalize+drop / write_shapes; writer and reader stacks; chunk/EINTR schedules on all four devices; by-path routes over pre-existing longer files in 1/16 of the runs). A run is non-trivial if it wrote at least one shape; distinct = distinct (type, per-shape part-length signature, writer stack, call pattern, reader stack) tuples by hash. hw-seeded: seeded writer histories (1..5 shapes, up to 12 calls, finalize anywhere, rejected writes) so that the extreme falls before/after an intermediate finalize; wfault-c05: seeded histories with a one-shot fault on the first device operation of a non-first write_shape (the call fails having transferred nothing), after which the history goes on.",
+            rule: "rt-grid: 13 types x parts 1..=6 x points/part 1..=8 x {Direct, BufWriter(7), BufWriter(8192)} x {with,without shx}, enumerated; rt-large: files of 1023..10000 records, shapes of 1023..2049 parts and of 1023..8193, 65535..70000, 2^17+5, 2^18+5 (thorough: 2^20+5) points per part, around the readers' internal limits and powers of two a block-wise writer may use; rt-seeded: one seeded scenario per run (type, 0..40 shapes via public constructors, swarm-drawn float classes incl. +-0, subnormals, +-inf, sentinels, no-data neighbourhood, NaN in Z/M; finalize placement; ending by drop / finalize+drop / write_shapes; writer and reader stacks; chunk/EINTR schedules on all four devices; by-path routes over pre-existing longer files in 1/16 of the runs). A run is non-trivial if it wrote at least one shape; distinct = distinct (type, per-shape part-length signature, writer stack, call pattern, reader stack) tuples by hash. hw-seeded: seeded writer histories (1..5 shapes, up to 12 calls, finalize anywhere, rejected writes) so that the extreme falls before/after an intermediate finalize; wfault-c05: seeded histories with a one-shot fault on the first device operation of a non-first write_shape (the call fails having transferred nothing), after which the history goes on. A quarter of the multi-vertex shapes reach the writer through Clone::clone() / Clone::clone_from().",
             explanation: "Fault-free configuration of the simulator with must-be-masked transfer schedules: the real writer runs against simulated devices, the bytes are judged by an independent decoder and read back through every reading route of the real reader. Simulated time = device operations (logical_steps); the code under test has no clock. C05 oracle: independent min/max (compared with ==) over the captured vertices against the constructed box, the record box, header bytes 36..100 and the reader\'s header; M range judged only when every measure is real data; no NaN runs.",
             exhaustive: false,
         },
         "C06" => PropMeta {
             level: "exploration",
-            rule: "rt-grid: 13 types x parts 1..=6 x points/part 1..=8 x {Direct, BufWriter(7), BufWriter(8192)} x {with,without shx}, enumerated; rt-large: files of 1023..10000 records, shapes of 1023..2049 parts and of 1023..8193 and 65535..70000 points per part, around the readers' internal limits and 2^16; rt-seeded: one seeded scenario per run (type, 0..40 shapes via public constructors, swarm-drawn float classes incl. +-0, subnormals, +-inf, sentinels, no-data neighbourhood, NaN in Z/M; finalize placement; ending by drop / finalize+drop / write_shapes; writer and reader stacks; chunk/EINTR schedules on all four devices; by-path routes over pre-existing longer files in 1/16 of the runs). A run is non-trivial if it wrote at least one shape; distinct = distinct (type, per-shape part-length signature, writer stack, call pattern, reader stack) tuples by hash. c03-sweep and foreign-seeded: files from the reference encoder incl. null records. On every well-formed file: the full 13 x 13 matrix of (requested type, file type) for read_as vs convert_shapes_to_vec_of(read()), drained iter_shapes_as for every wrong type, TryFrom<Shape> into all 13 types for every value, shapetype() of value and of type. foreign-seeded / c03-sweep: a quarter of the foreign files (incl. physically permuted ones) are also read by path, read_shapes_as(path) against read_shapes(path) converted.",
+            rule: "rt-grid: 13 types x parts 1..=6 x points/part 1..=8 x {Direct, BufWriter(7), BufWriter(8192)} x {with,without shx}, enumerated; rt-large: files of 1023..10000 records, shapes of 1023..2049 parts and of 1023..8193, 65535..70000, 2^17+5, 2^18+5 (thorough: 2^20+5) points per part, around the readers' internal limits and powers of two a block-wise writer may use; rt-seeded: one seeded scenario per run (type, 0..40 shapes via public constructors, swarm-drawn float classes incl. +-0, subnormals, +-inf, sentinels, no-data neighbourhood, NaN in Z/M; finalize placement; ending by drop / finalize+drop / write_shapes; writer and reader stacks; chunk/EINTR schedules on all four devices; by-path routes over pre-existing longer files in 1/16 of the runs). A run is non-trivial if it wrote at least one shape; distinct = distinct (type, per-shape part-length signature, writer stack, call pattern, reader stack) tuples by hash. c03-sweep and foreign-seeded: files from the reference encoder incl. null records. On every well-formed file: the full 13 x 13 matrix of (requested type, file type) for read_as vs convert_shapes_to_vec_of(read()), drained iter_shapes_as for every wrong type, TryFrom<Shape> into all 13 types for every value, shapetype() of value and of type. foreign-seeded / c03-sweep: a quarter of the foreign files (incl. physically permuted ones) are also read by path, read_shapes_as(path) against read_shapes(path) converted.",
             explanation: "Fault-free configuration of the simulator with must-be-masked transfer schedules: the real writer runs against simulated devices, the bytes are judged by an independent decoder and read back through every reading route of the real reader. Simulated time = device operations (logical_steps); the code under test has no clock.",
             exhaustive: false,
         },
@@ -238,19 +238,19 @@ pub fn meta(prop: &str) -> PropMeta {
         },
         "C14" => PropMeta {
             level: "exploration",
-            rule: "c14-sweep: 13 types x n=1..4 records of pairwise different sizes x all n! physical orders x {no filler, short filler, filler that looks like a record header}, enumerated; c14-sparse: 13 types x 5 layouts of a sparse source of up to 4 GiB whose records sit at and beyond the 2 GiB boundary, in non-physical index order; foreign-seeded: seeded files with shuffled physical order, random even-length filler (some looking like record headers) before/between/after records, short-read schedules, BufReader capacities. distinct as for C03. A quarter of all scenarios (chosen by content hash) are also written to disk and read by path: read_shapes, ShapeReader::from_path(..).read(), read_shapes_as (the .shx next to the .shp is supplied to each), and typed-by-path is compared with generic-by-path converted (C06).",
+            rule: "c14-sweep: 13 types x n=1..4 records of pairwise different sizes x all n! physical orders x {no filler, short filler, filler that looks like a record header}, enumerated; c14-sparse: 13 types x 5 layouts of a sparse source of up to 4 GiB whose records sit at and beyond the 2 GiB boundary, in non-physical index order; foreign-seeded: seeded files with shuffled physical order, random even-length filler (some looking like record headers) before/between/after records, short-read schedules, BufReader capacities. distinct as for C03. A quarter of all scenarios (chosen by content hash) are also written to disk and read by path: read_shapes, ShapeReader::from_path(..).read(), read_shapes_as (the .shx next to the .shp is supplied to each), and typed-by-path is compared with generic-by-path converted (C06). Half of the by-path scenarios are data sets of symbolic links into a store whose files carry other names.",
             explanation: "The reference encoder places records at arbitrary offsets and writes the matching .shx; the real reader opened with_shx must yield one item per index entry in index order, each equal to the record at that entry, agree with read_nth_shape(i) and shape_count(). Reach counter: seeks issued during indexed iteration.",
             exhaustive: true,
         },
         "C08" => PropMeta {
             level: "exploration",
-            rule: "pair-sweep: 13 types x all histories up to length 4 (quick) / 5 (thorough) over {good pair a, good pair b, shape of another type, row missing a field, row with a value of the wrong field type} (a wrong-type shape never first) x ending {drop, write_shapes_and_records} x {Direct, BufWriter(64)}, enumerated completely, by-path route (Writer::from_path over pre-existing longer files, then a neighbouring data set with other rows written to a path that differs only behind a dot inside the file stem; Reader::from_path, shapefile::read) on the length-2 histories without failing rows; for histories without failing row also the complete Reader after seek(k-1), a failing typed pair iteration and seek(k); pair-large: 1025, 4097 and 6000 pairs in one file; pair-seeded: seeded histories up to length 10 with generated shapes and stacks. distinct = distinct (type, history, ending, stack) tuples.",
+            rule: "pair-sweep: 13 types x all histories up to length 4 (quick) / 5 (thorough) over {good pair a, good pair b, shape of another type, row missing a field, row with a value of the wrong field type} (a wrong-type shape never first) x ending {drop, write_shapes_and_records} x {Direct, BufWriter(64)}, enumerated completely, by-path route (Writer::from_path over pre-existing longer files, then a neighbouring data set with other rows written to a path that differs only behind a dot inside the file stem; Reader::from_path, shapefile::read) on the length-2 histories without failing rows; for histories without failing row also the complete Reader after seek(k-1), a failing typed pair iteration and seek(k); pair-large: 1025, 4097 and 6000 pairs in one file; pair-seeded: seeded histories up to length 10 with generated shapes and stacks. distinct = distinct (type, history, ending, stack) tuples. Histories without failing row are also read by a complete Reader without index through two successive pair iterations (half of the pairs, then the rest).",
             explanation: "The complete Writer runs on three simulated devices. After every call (Direct stack) the three files are scanned physically and independently (records from byte 100, index entries, whole rows after the dbf header + stray bytes); at the end the counts come from the independent decoders and the dbf header, and the complete Reader must return exactly the successfully written pairs, shape i with the row whose idx is i. Histories containing a failing row hit the two known findings listed in known_findings.jsonl.",
             exhaustive: true,
         },
         "C15" => PropMeta {
             level: "exploration",
-            rule: "all call sequences up to length 4 (quick) / 6 (thorough) over the 17-letter alphabet {iterate 0/1/2/all items, Iterator::nth(1) on a new iterator (what skip and step_by call), read_nth_shape(0..=3), read_nth_shape_as::<another type>(0..=1) (a random access that fails), iterate as another type and take one item (an iteration that fails), seek(0..=3), shape_count} on files of n=3 records (plus six configurations with n = 1, 2 and 4 records; the 4-record ones one call shorter), for 10 configurations: {ShapeReader with index, ShapeReader without index, complete Reader with rows carrying their index} x {records of pairwise different sizes, records of equal size}, plus 4 configurations (ShapeReader with index, complete Reader) on files re-laid out so that the physical order differs from the index order (reversed with filler; rotated with filler that looks like a record header), enumerated completely (17 + 17^2 + 17^3 + 17^4 histories per 3-record configuration in the quick tier). distinct = distinct (configuration, history) pairs; evaluations = histories executed; logical_steps = reader calls.",
+            rule: "all call sequences up to length 4 (quick) / 6 (thorough) over the 18-letter alphabet {random access as a user-defined ReadableShape whose read_from panics (caught by the caller), iterate 0/1/2/all items, Iterator::nth(1) on a new iterator (what skip and step_by call), read_nth_shape(0..=3), read_nth_shape_as::<another type>(0..=1) (a random access that fails), iterate as another type and take one item (an iteration that fails), seek(0..=3), shape_count} on files of n=3 records (plus six configurations with n = 1, 2 and 4 records; the 4-record ones one call shorter), for 12 configurations: {ShapeReader with index, ShapeReader without index, complete Reader with rows carrying their index, complete Reader without index} x {records of pairwise different sizes, records of equal size}, plus 4 configurations (ShapeReader with index, complete Reader) on files re-laid out so that the physical order differs from the index order (reversed with filler; rotated with filler that looks like a record header), enumerated completely (18 + 18^2 + 18^3 + 18^4 histories per 3-record configuration in the quick tier). distinct = distinct (configuration, history) pairs; evaluations = histories executed; logical_steps = reader calls.",
             explanation: "Each history runs on the real reader over in-memory sources; every call's result is checked against a nondeterministic reference model whose state is the set of allowed positions of the next record: fresh / after random access = {0}, after seek(k) = {min(k,n)}, after an iteration that took items from p = {p+taken, 0}. Rows of the complete Reader must carry the index of their shape.",
             exhaustive: true,
         },
@@ -262,7 +262,7 @@ pub fn meta(prop: &str) -> PropMeta {
         },
         "C10" => PropMeta {
             level: "exploration",
-            rule: "c10-sweep: all 13x12 ordered (file type, offered type) pairs x all histories over {write a, write b, finalize} that start with a write, up to length 3 (quick) / 5 (thorough) x every position of the rejected call, enumerated completely; c10-user-shape: for each file type, a user-defined EsriShape (the trait is public) of each of the 13 other type codes - NullShape included, which no built-in shape has - announcing sizes from 0 to u64::MAX; hw-seeded: seeded longer histories; pair-sweep / pair-seeded: the complete writer (the rejected pair must not touch the .dbf either). distinct = distinct (type, call pattern, index, stack) tuples.",
+            rule: "c10-sweep: all 13x12 ordered (file type, offered type) pairs x all histories over {write a, write b, finalize} that start with a write, up to length 3 (quick) / 5 (thorough) x every position of the rejected call, enumerated completely; c10-user-shape: for each file type, a user-defined EsriShape (the trait is public) of each of the 13 other type codes - NullShape included, which no built-in shape has - announcing sizes from 0 to u64::MAX; hw-seeded: seeded longer histories; pair-sweep / pair-seeded: the complete writer (the rejected pair must not touch the .dbf either). distinct = distinct (type, call pattern, index, stack) tuples. pair-sweep also runs all histories up to length 3 over {good pair a, good pair b, rejected shape} through a complete Writer built over a ShapeWriter that has already written a shape, compared with the same history without the rejected calls.",
             explanation: "The rejected call must return MismatchShapeType{file type, offered type}, have an empty device-event range, and the final files must equal those of the history with the rejected calls deleted.",
             exhaustive: true,
         },
@@ -280,7 +280,7 @@ pub fn meta(prop: &str) -> PropMeta {
         },
         "C07" | "C17" => PropMeta {
             level: "fault_enumeration",
-            rule: "corrupt: one unit = one seeded base file from the real writer (any type, 1..4 records, 1..3 parts) with its .shx and a valid .dbf; enumerated per base file: every 32-bit field of .shp and .shx (header length/version/type, record number/length/type, part and point counts, every part offset, every patch kind, index length/type, every index offset/length) x ~25 boundary values (0, +-1, i32::MIN/MAX, 2^27..2^30 and neighbours, doubles/halves of the original), every truncation length of both files, extensions by 1/7/8/100 bytes and by a copy of the records; sampled per base file: 150 field pairs, 150 bit flips, 40 garbage bodies behind a valid file code. ladder: for every multi-vertex type and the index, declared counts 10^3..2^31-1 (incl. 2^27, 2^28, 2^29 whose byte sizes wrap 32 bits) with mutually consistent record/file lengths and either no data behind or exactly 1024/1025/2048/5000 elements (4096/4097/9000 index entries) really present, and for the multipart types counts that need no x,y at all (the only part starts at, or one before, the end of the points; no part), so that the Z / M arrays are reached with nothing read; plus valid fully backed files of unusual structure (3000 two-point parts, 2049 patches, 1500 rings, 8193 points, 5000 records). Every case drives ~45 reader calls (open, header, count, iterate generic/typed drained, size_hint, read_nth and seek at 0,1,n-1,n,usize::MAX each followed by iteration, read, read_as, complete Reader iterate/seek/read). distinct = distinct (type, field id + value class, outcome signature) triples.",
+            rule: "corrupt: one unit = one seeded base file from the real writer (any type, 1..4 records, 1..3 parts) with its .shx and a valid .dbf; enumerated per base file: every 32-bit field of .shp and .shx (header length/version/type, record number/length/type, part and point counts, every part offset, every patch kind, index length/type, every index offset/length) x ~25 boundary values (0, +-1, i32::MIN/MAX, 2^27..2^30 and neighbours, doubles/halves of the original), every truncation length of both files, extensions by 1/7/8/100 bytes and by a copy of the records; sampled per base file: 150 field pairs, 150 bit flips, 40 garbage bodies behind a valid file code. ladder: for every multi-vertex type and the index, declared counts 10^3..2^31-1 (incl. 2^27, 2^28, 2^29 whose byte sizes wrap 32 bits) with mutually consistent record/file lengths and either no data behind or exactly 1024/1025/2048/5000 elements (4096/4097/9000 index entries) really present, and for the multipart types counts that need no x,y at all (the only part starts at, or one before, the end of the points; no part), so that the Z / M arrays are reached with nothing read; plus valid fully backed files of unusual structure (3000 two-point parts, 2049 patches, 1500 rings, 8193 points, 5000 records). Every case drives ~45 reader calls (open, header, count, iterate generic/typed drained, size_hint, read_nth and seek at 0,1,n-1,n,usize::MAX each followed by iteration, read, read_as, complete Reader iterate/seek/read). distinct = distinct (type, field id + value class, outcome signature) triples. The ladder also holds each declared count stored behind a small complete record and listed first by the index (an indexed iteration has to seek), and a Point file of 400 000 null records followed by one point.",
             explanation: "Each reader call runs under catch_unwind (overflow checks and debug assertions on) and between begin/end of the counting allocator; iterators are drained through an item cap of (len(shp)+len(shx))/4+16. Workers run under an address-space limit with a watchdog: a worker that dies or stalls is pinpointed to the case and reported as abort/hang. C17 bound per call: peak live bytes and largest single request <= 64 x input bytes + 64 KiB.",
             exhaustive: false,
         },
